@@ -133,7 +133,7 @@ def nontrivial(case):
 def check(rep, tier, seed, driver):
     py2v_stats.report(rep)
     rng = random.Random(seed)
-    n = 300 if tier == "quick" else 6000
+    n = 300 if tier == "quick" else 4000
     rep.rule = ("(a) exact stream: dyadic objectives (multiples of 1/8, |x| <= 8) and dyadic offsets so that every float sum is exact; elitist "
                 "Grid/CVT/Sliding archives; whole-history comparison of stats/best_elite bit for bit (float64) or correctly rounded (float32); "
                 "(b) CMA-MAE and moderate floats: step-wise simulation, statistics within a few ulp of the summed magnitudes; (c) cqd_score vs "
